@@ -11,7 +11,10 @@ MAP = "crate::pipeline::vcs_data_to_zerv_vars::vcs_data_to_zerv_vars"
 ARGV = {
     "get_commits_in_topo_order#0": (["rev-list", "--topo-order", "HEAD"], ["--all", "--reverse", "--date-order", "--author-date-order"]),
     "get_commits_in_topo_order#1": (["--tags", "--no-walk", "%H"], ["--all"]),
-    "get_all_tags_from_commit_hash#0": (["tag", "--points-at"], ["--merged", "--contains", "--no-contains"]),
+    # the listing must not depend on the repository's configuration (column.ui = always prints several tags per line: fix 2 of round 5) and a
+    # tag must be named unambiguously (%(refname:short) prints tags/<name> when a branch has the same name)
+    "get_all_tags_from_commit_hash#0": ([["tag", "--points-at", "--no-column"], ["tag", "--points-at", "--column=never"], ["for-each-ref", "--points-at", "refs/tags", "strip=2"]],
+                                        ["--merged", "--contains", "--no-contains", "refname:short"]),
     "calculate_distance#0": (["rev-list", "--count"], ["--all", "--first-parent", "--no-merges", "--merges"]),
     "get_commit_hash#0": ([["rev-parse", "HEAD"], ["rev-list", "-n", "1", "HEAD"], ["log", "-1", "%H"]], ["--short", "%h"]),
     "get_current_branch#0": ([["branch", "--show-current"], ["symbolic-ref", "--short", "HEAD"]], []),
@@ -19,7 +22,9 @@ ARGV = {
     "get_tag_timestamp#0": (["%ct"], ["%at", "%ad"]),
     # alternatives: a list of lists is "any one of these token sets" (equivalent git spellings of the same question)
     "get_tag_commit_hash#0": ([["rev-list", "-n", "1"], ["rev-list", "-1"], ["rev-list", "--max-count=1"], ["rev-parse", "^{commit}"], ["rev-parse", "^{}"]], []),
-    "is_dirty#0": ([["status", "--porcelain"], ["status", "--short"], ["status", "-s"]], ["-uno", "--untracked-files=no", "--ignored", "--ignore-submodules"]),
+    # untracked files are asked for explicitly: status.showUntrackedFiles = no would hide them (round 5)
+    "is_dirty#0": ([[st, fmt_, u] for st in ("status",) for fmt_ in ("--porcelain", "--short", "-s") for u in ("--untracked-files=normal", "--untracked-files=all", "-unormal", "-uall")],
+                   ["-uno", "--untracked-files=no", "--ignored", "--ignore-submodules"]),
 }
 
 def argv_of(F, f, t):
@@ -170,7 +175,7 @@ def check(F, rep, tier):
                     misses = [[r for r in alt if not any(r == x or r in x for x in flat)] for alt in alts]
                     miss = [] if any(not m for m in misses) else min(misses, key=len)
                     req = next((alt for alt, m in zip(alts, misses) if not m), alts[0])
-                    bad = [b for b in forb if any(b == x or b in x for x in flat)]
+                    bad = [b for b in forb if any(b == x or (not b.startswith("-") and b in x) for x in flat)]     # options by equality, format pieces by containment
                     if miss or bad: rep.bad("R02.4", "argv:" + k, "git %s: required tokens missing %s, forbidden tokens present %s (argv %s)" % (k, miss, bad, flat), site)
                     else: rep.ok("R02.4", "git %s argv has %s" % (k, req), sample=flat, nontrivial_key=k)
                     if k == "calculate_distance#0":
@@ -253,7 +258,13 @@ def check(F, rep, tier):
                 if "Some" in v:
                     # block is inside the loop: it can reach the loop header? a return cannot; instead check its guards include the iterator's Some
                     if any(d[0] == "discr" and isinstance(pol, tuple) and pol[0] == "in" and "Some" in pol[1] for d, pol, dd in mir.guards_of(lt, bi)): in_loop_ret = True
-        fm = any((mir.callee(t) or "").endswith("GitUtils::find_max_version_tag") for bi, t in lt.calls())
+        scope_ = [lt] + mir.closures_in(F, lt)
+        # lazy pipeline idiom: commits.iter().map(tags).filter(..).find_map(|tags| max(tags)) stops at the first hit as the loop does
+        short_circuit = [bi for bi, t in lt.calls() if (mir.callee(t) or "").rsplit("::", 1)[-1] in ("find_map", "find") and "Iterator" in (mir.callee(t) or "")]
+        eager = [(mir.callee(t) or "").rsplit("::", 1)[-1] for bi, t in lt.calls() if "Iterator" in (mir.callee(t) or "") and (mir.callee(t) or "").rsplit("::", 1)[-1] in ("last", "max", "max_by", "max_by_key", "min", "min_by", "min_by_key", "fold", "reduce", "rfind", "for_each")]
+        if not in_loop_ret and short_circuit and not eager and any((mir.callee(t) or "").endswith("GitUtils::find_max_version_tag") for g_ in scope_[1:] for bi, t in g_.calls()):
+            in_loop_ret = True
+        fm = any((mir.callee(t) or "").endswith("GitUtils::find_max_version_tag") for g_ in scope_ for bi, t in g_.calls())
         it = any((mir.callee(t) or "").endswith("get_commits_in_topo_order") for bi, t in lt.calls())
         rev = any("iter::Rev" in (t[1].get("full") or "") or (mir.callee(t) or "").endswith("::rev") or (mir.callee(t) or "").endswith("::reverse") or (mir.callee(t) or "").endswith("::last") for bi, t in lt.calls())
         if in_loop_ret and fm and it and not rev: rep.ok("R02.5", "search returns at the first commit (in walk order) that has a valid tag, choosing it with find_max_version_tag", nontrivial_key="first")
